@@ -10,7 +10,7 @@ fd, xml = tempfile.mkstemp(suffix=".xml", dir="/var/tmp"); os.close(fd)
 env = dict(os.environ, PYTHONPATH=wt, PYTHONDONTWRITEBYTECODE="1")
 env.pop("VERIF_AUDIT_LOG", None)
 subprocess.run(["/venv/bin/python", "-m", "pytest", "-q", "-p", "no:cacheprovider", "--timeout=900",
-                "--continue-on-collection-errors", "-n", "8", f"--junitxml={xml}"],
+                "--continue-on-collection-errors", "-n", os.environ.get("BASELINE_PROCS", "6"), f"--junitxml={xml}"],
                cwd=wt, env=env, capture_output=True, text=True)
 passed = set()
 try:
